@@ -82,7 +82,7 @@ def stream_replay(ty, xs, seconds=None, variants=None, kind="family"):
             leaves = [adds[lo:hi] for (lo, hi) in comp]
             program += tree_program(ty, leaves, tree) + ["dump"]
             expected.append(exp)
-        scale = max([abs(x) for x in a] + [1.0])
+        scale = max([abs(x) for x in a] + ([abs(y) for y in b] if b else []) + [1e-300])
         return program, expected, {"data": a, "second": b, "scale": scale}
     return {"vars": vars_, "build": build, "counts": ()}
 
@@ -122,7 +122,7 @@ def state_replay(ty, n, mu, M, op=None, x=None, other=None):
             summ = py_merge(na, ma, Ma, nb_, mb, Mb_, P)
         program.append("dump")
         exp = expected_from_summary(ty, *summ)
-        scale = max([abs(float(ma)), 1.0] + [abs(float(v)) for v in Ma.values()])
+        scale = max([abs(float(ma)), 1e-300] + [abs(float(v)) ** (1.0 / p) for p, v in Ma.items()] + ([abs(float(xv))] if op == "add" else []))
         return program, [exp], {"state": [na, float(ma)] + [float(v) for v in Ma.values()], "scale": scale}
     return {"vars": vars_, "build": build, "counts": counts}
 
@@ -158,7 +158,7 @@ def wm_state_replay(ws, a, op=None, x=None, w=None, other=None):
                 W1, A1 = Wb, Ab
         program.append("dump")
         exp = {"mean": A1 if W1 > 0 else None, "sum_weights": W1}
-        return program, [exp], {"scale": max(abs(float(A0)), 1.0)}
+        return program, [exp], {"scale": max(abs(float(A0)), 1e-300)}
     return {"vars": vars_, "build": build, "counts": ()}
 
 
@@ -170,7 +170,7 @@ def wmwe_state_replay(q, ws, a, mu, n, m2):
         Q, W0, A0, MU, M2 = [fr(dbl(vals[str(v)])) for v in (q, ws, a, mu, m2)]
         program = ["parts WeightedMeanWithError %s %s %s %s %x %s" % (f2w(float(Q)), f2w(float(W0)), f2w(float(A0)), f2w(float(MU)), nn, f2w(float(M2))),
                    "dump"]
-        return program, [expected_wmwe_summary(Q, W0, A0, MU, nn, M2)], {"scale": max(abs(float(A0)), abs(float(MU)), 1.0)}
+        return program, [expected_wmwe_summary(Q, W0, A0, MU, nn, M2)], {"scale": max(abs(float(A0)), abs(float(MU)), 1e-300)}
     return {"vars": [q, ws, a, mu, n, m2], "build": build, "counts": [n]}
 
 
@@ -211,5 +211,5 @@ def cov_state_replay(A, op=None, xy=None, B=None):
                 res = (n_, (a[0] * a[1] + b[0] * b[1]) / n_, (a[0] * a[2] + b[0] * b[2]) / n_, a[3] + b[3] + dx * dx * f, a[4] + b[4] + dy * dy * f,
                        a[5] + b[5] + dx * dy * f)
         program.append("dump")
-        return program, [expected_cov_summary(*res)], {"scale": max(abs(float(a[1])), abs(float(a[2])), 1.0)}
+        return program, [expected_cov_summary(*res)], {"scale": max(abs(float(a[1])), abs(float(a[2])), 1e-300)}
     return {"vars": vars_, "build": build, "counts": counts}
